@@ -140,6 +140,22 @@ static void prop(Ctx &c) {
     }
     zck_free(&z); close(fd);
     if (!fail_sig.empty()) c.fail(fail_sig, fail_msg);
+    // ---- the advanced open with the caller's expectations pinned reports the FILE's values too: the same image with one byte of the
+    // stored header checksum changed, opened with the true checksum pinned (before the lead is read, or after it).  If that opens at
+    // all, the checksum it reports must be the one stored in the file - what was pinned is the caller's claim, not the file's content.
+    if (c.gver >= 4 && opened && pr.ok && h.meta_ok && h.header_digest.size() && c.rarely(4)) {
+        Bytes m = img; size_t dloc = h.lead_size - h.header_digest.size(), pos = dloc + c.pick(h.header_digest.size()); m[pos] ^= (uint8_t)(1u << c.draw(7));
+        Bytes stored(m.begin() + dloc, m.begin() + h.lead_size); std::string pin = hex(h.header_digest); bool late = c.boolean();
+        int fd2 = lib::mkfd(m); zckCtx *z2 = zck_create(); bool ok = zck_init_adv_read(z2, fd2);
+        if (ok && late) ok = zck_read_lead(z2);
+        if (ok) { (void)!zck_set_ioption(z2, ZCK_VAL_HEADER_HASH_TYPE, (ssize_t)h.hash_type); (void)!zck_set_soption(z2, ZCK_VAL_HEADER_DIGEST, pin.data(), pin.size()); if (zck_is_error(z2)) (void)!zck_clear_error(z2); }
+        if (ok && !late) ok = zck_read_lead(z2);
+        if (ok) ok = zck_read_header(z2);
+        c.label(late ? "pinned-open-of-altered-checksum(pin after lead)" : "pinned-open-of-altered-checksum");
+        if (ok) { char *g = zck_get_header_digest(z2); std::string gs = g ? g : "(null)"; free(g); zck_free(&z2); close(fd2);
+                  if (gs != hex(stored)) c.fail("getter-header-digest", "header-digest after an open with the expected checksum pinned" + std::string(late ? " (after the lead was read)" : "") + ": reported " + gs + ", the file stores " + hex(stored)); }
+        else { zck_free(&z2); close(fd2); }
+    }
     // ---- what `zck_read_header -c` prints must be the same metadata (ASan build of the tool)
     const char *bdir = getenv("VERIF_BUILD");
     if (bdir && opened && pr.ok && h.meta_ok && c.draw(c.tier ? 15 : 40) == 0) {
